@@ -61,13 +61,13 @@ def w1(p, m):
     p.send_dimse(m["ctx"], r(0xFF00, b"x"), b"\xff" * 8)
     p.send_dimse(m["ctx"], r(0xFF00, b"x"), el(0x0010, 0x0020, b"P2"))
     p.send_dimse(m["ctx"], r(0x0000, None))
-lst = vpeer.Listener(); acceptor(lst, w1, n_conn=2)
+lst = vpeer.Listener(); acceptor(lst, w1, n_conn=3)
 ae = new_ae(); assoc = ae.associate("127.0.0.1", lst.port)
 q = Dataset(); q.QueryRetrieveLevel = "PATIENT"; q.PatientID = "*"
 it = assoc.send_c_find(q, FIND)
 n = 0
 for status, ident in it:
-    free = ae._lock.acquire(blocking=False)
+    free = ae._lock.acquire(blocking=False) or ae._lock.acquire(timeout=0.3)   # tolerate short sections of other threads
     if free:
         ae._lock.release()
     print("   yield #%d: Status=0x%04X identifier=%s   ae._lock free while suspended: %s" % (
@@ -75,14 +75,16 @@ for status, ident in it:
     if not free:
         res = {}
         def second():
-            a2 = ae.associate("127.0.0.1", lst.port); res["echo"] = a2.send_c_echo().get("Status"); a2.release()
+            a2 = ae.associate("127.0.0.1", lst.port)
+            if a2.is_established:
+                res["echo"] = a2.send_c_echo().get("Status"); a2.release()
         t = threading.Thread(target=second, daemon=True); t.start(); t.join(2.0)
         print("      second association of the same AE within 2 s while suspended:", "BLOCKED" if t.is_alive() else res)
     n += 1
 print("   -> 3 responses sent, %d pairs yielded" % n)
 assoc.release(); lst.close(); ae.shutdown()
 
-print("W2 C-ECHO answered by a C-STORE-RSP(Status 0x0000); N-DELETE answered by a C-ECHO-RSP")
+print("W2 C-ECHO answered by a C-STORE-RSP(Status 0x0000)")
 def w2(p, m):
     p.send_dimse(m["ctx"], cmdset.make("C-STORE-RSP", AffectedSOPClassUID=VER, AffectedSOPInstanceUID="1.2.3",
                                        MessageIDBeingRespondedTo=m["cmd"]["MessageID"], Status=0))
